@@ -268,6 +268,26 @@ impl Kernels {
     }
 }
 
+impl Kernels {
+    /// a case whose two real results were observed indirectly (through drawn outlines)
+    fn emit_observed(&mut self, op: i64, a: Vec<i64>, sk: i64, ft: i64) {
+        let st = &mut self.st;
+        st.evaluations += 1;
+        st.count(&format!("kernel.op{:02}", op));
+        let key = format!("kernel:{}:{:?}", op, a);
+        if sk != ft {
+            st.oracle_failure(json!({"key": key, "what": "skrifa != FreeType on an instruction micro-program", "op": op, "args": a,
+                                     "skrifa": sk, "freetype": ft}));
+        }
+        if op == 30 {
+            st.count(if (a[0] - a[1]).abs() > a[2] { "kernel.op30.cutin_exceeded" } else { "kernel.op30.within_cutin" });
+            st.count(if a[0] >= a[1] { "kernel.op30.cvt_above" } else { "kernel.op30.cvt_below" });
+        }
+        st.nontrivial(&key);
+        self.cw.push(format!("({}, {}, {}, {})", op, czlist(a.iter().map(|v| *v as i128)), czlist([sk as i128]), czlist([ft as i128])));
+    }
+}
+
 fn kernels(k: &mut Kernels, rng: &mut Rng, thorough: bool) {
     let grid = boundary_i32();
     let mult = if thorough { 10 } else { 1 };
@@ -471,6 +491,533 @@ fn witnesses(st: &mut Stats) {
 }
 
 // ------------------------------------------------------------------------------------------
+// (c) synthetic TrueType font: instruction micro-programs compared between skrifa and FreeType
+// ------------------------------------------------------------------------------------------
+/// A fixed (seed-independent, so that failure keys are stable) TrueType font whose glyphs are 8-point polygons
+/// carrying small instruction programs: every family of point-moving instruction (MIAP, MDAP, MDRP, MIRP,
+/// MSIRP, ALIGNRP, ALIGNPTS, SHP, SHC, SHPIX, IP, ISECT, SCFS, UTP, FLIPPT, DELTAP/DELTAC, twilight zone, CALL/
+/// LOOPCALL, MPPEM/MPS/GETINFO conditionals, non-axis vectors, stack arithmetic made visible through SCFS) with
+/// operands above / below / at the control-value cut-in, single-width and minimum-distance thresholds, both signs,
+/// every round state.  "Everything between the kernels" is exercised by comparing the two interpreters on it.
+mod synth {
+    use vh::Rng;
+
+    pub struct Glyph {
+        pub name: String,
+        pub pts: Vec<(i16, i16)>,
+        pub code: Vec<u8>,
+        /// kernel tie: (cvt value, current coordinate, cut-in) of a `SCFS; WCVTP; SCVTCI; ROFF; MIAP[1]` program on point 0
+        pub miap_kernel: Option<(i64, i64, i64)>,
+    }
+
+    #[derive(Default)]
+    pub struct Asm(pub Vec<u8>);
+    impl Asm {
+        pub fn push(&mut self, vals: &[i32]) -> &mut Self {
+            for v in vals {
+                if (0..=255).contains(v) {
+                    self.0.extend([0xB0, *v as u8]);
+                } else {
+                    let w = (*v).clamp(-32768, 32767) as i16;
+                    self.0.push(0xB8);
+                    self.0.extend(w.to_be_bytes());
+                }
+            }
+            self
+        }
+        pub fn op(&mut self, o: u8) -> &mut Self {
+            self.0.push(o);
+            self
+        }
+    }
+
+    pub const FAMILIES: [&str; 16] = [
+        "miap", "mdrp", "mirp", "align", "isect", "shpix", "arith", "measure", "delta", "cond", "twilight", "call", "flip",
+        "vectors", "mixed", "kmiap",
+    ];
+    const VARIANTS: usize = 36;
+    const SCRATCH_CVT: i32 = 40; // cvt entries 40.. are written by the programs
+
+    fn round_state(a: &mut Asm, r: &mut Rng) {
+        match r.below(11) {
+            0 => a.op(0x18),                                         // RTG
+            1 => a.op(0x19),                                         // RTHG
+            2 => a.op(0x3D),                                         // RTDG
+            3 => a.op(0x7D),                                         // RDTG
+            4 => a.op(0x7C),                                         // RUTG
+            5 => a.op(0x7A),                                         // ROFF
+            6 | 7 => a.push(&[r.below(256) as i32]).op(0x76),        // SROUND
+            8 => a.push(&[r.below(256) as i32]).op(0x77),            // S45ROUND
+            _ => a,
+        };
+    }
+
+    fn thresholds(a: &mut Asm, r: &mut Rng) {
+        if r.chance(2, 3) {
+            a.push(&[*r.pick(&[0, 1, 8, 16, 17, 32, 64, 68, 69, 128, 300, -1])]).op(0x1D); // SCVTCI
+        }
+        if r.chance(1, 3) {
+            a.push(&[*r.pick(&[0, 8, 16, 32, 64, 200])]).op(0x1E); // SSWCI
+            a.push(&[*r.pick(&[0, 60, 100, 180, 300, -120])]).op(0x1F); // SSW (FUnits)
+        }
+        if r.chance(1, 2) {
+            a.push(&[*r.pick(&[0, 1, 32, 63, 64, 65, 100, 128])]).op(0x1A); // SMD
+        }
+    }
+
+    /// returns 0 = y axis, 1 = x axis, 2 = diagonal
+    fn axis(a: &mut Asm, r: &mut Rng) -> usize {
+        match r.below(8) {
+            0..=2 => {
+                a.op(0x00);
+                0
+            }
+            3..=5 => {
+                a.op(0x01);
+                1
+            }
+            6 => {
+                // projection along the line p1-p5, freedom = projection
+                a.push(&[1, 5]).op(0x06).op(0x0E);
+                2
+            }
+            _ => {
+                // projection vector from the stack (45 degrees), freedom vector x
+                a.push(&[0x2D41, 0x2D41]).op(0x0A).op(0x05);
+                2
+            }
+        }
+    }
+
+    fn coord(pts: &[(i16, i16)], p: usize, ax: usize) -> i32 {
+        if ax == 0 {
+            pts[p].1 as i32
+        } else {
+            pts[p].0 as i32
+        }
+    }
+
+    const DELTAS: [i32; 17] = [0, 1, -1, 3, -3, 8, -8, 15, -15, 30, -30, 60, -60, 120, -120, 250, -250];
+
+    fn fam_miap(a: &mut Asm, r: &mut Rng, pts: &[(i16, i16)], ax: usize) {
+        for k in 0..(1 + r.below(3) as i32) {
+            let p = r.below(8) as usize;
+            let idx = SCRATCH_CVT + k;
+            a.push(&[idx, coord(pts, p, ax) + *r.pick(&DELTAS)]).op(0x70); // WCVTF
+            a.push(&[p as i32, idx]).op(0x3E + r.below(2) as u8); // MIAP[a]
+        }
+    }
+
+    fn fam_mdrp(a: &mut Asm, r: &mut Rng) {
+        a.push(&[r.below(8) as i32]).op(0x2E + r.below(2) as u8); // MDAP[a]
+        for _ in 0..(1 + r.below(3)) {
+            a.push(&[r.below(8) as i32]).op(0xC0 + r.below(32) as u8); // MDRP[abcde]
+        }
+    }
+
+    fn fam_mirp(a: &mut Asm, r: &mut Rng, pts: &[(i16, i16)], ax: usize) {
+        if r.chance(1, 4) {
+            a.op(0x4E); // FLIPOFF
+        }
+        let p0 = r.below(8) as usize;
+        a.push(&[p0 as i32]).op(0x2E + r.below(2) as u8);
+        for k in 0..(1 + r.below(3) as i32) {
+            let q = r.below(8) as usize;
+            let mut d = coord(pts, q, ax) - coord(pts, p0, ax) + *r.pick(&DELTAS);
+            if r.chance(1, 5) {
+                d = -d;
+            }
+            let idx = SCRATCH_CVT + 4 + k;
+            a.push(&[idx, d]).op(0x70);
+            a.push(&[q as i32, idx]).op(0xE0 + r.below(32) as u8); // MIRP[abcde]
+        }
+    }
+
+    fn fam_align(a: &mut Asm, r: &mut Rng, pts: &[(i16, i16)], ax: usize) {
+        fam_miap(a, r, pts, ax);
+        let (b, c, d) = (r.below(8) as i32, r.below(8) as i32, r.below(8) as i32);
+        match r.below(5) {
+            0 => {
+                a.push(&[b, c, 2]).op(0x17).op(0x3C); // SLOOP 2; ALIGNRP
+            }
+            1 => {
+                a.push(&[b]).op(0x11).push(&[c]).op(0x12); // SRP1 SRP2
+                a.push(&[d]).op(0x32 + r.below(2) as u8); // SHP[a]
+            }
+            2 => {
+                a.push(&[b]).op(0x11).push(&[c]).op(0x12);
+                a.push(&[0]).op(0x34 + r.below(2) as u8); // SHC[a] contour 0
+            }
+            3 => {
+                a.push(&[b]).op(0x11).push(&[c]).op(0x12);
+                a.push(&[d, (d + 3) % 8, 2]).op(0x17).op(0x39); // SLOOP 2; IP
+            }
+            _ => {
+                a.push(&[b, c]).op(0x27); // ALIGNPTS
+            }
+        }
+    }
+
+    fn fam_isect(a: &mut Asm, r: &mut Rng) {
+        let mut v: Vec<i32> = (0..8).collect();
+        r.shuffle(&mut v);
+        a.push(&[v[0], v[1], v[2], v[3], v[4]]).op(0x0F); // ISECT
+        if r.chance(1, 2) {
+            a.push(&[v[5]]).op(0x29); // UTP
+        }
+    }
+
+    fn fam_shpix(a: &mut Asm, r: &mut Rng) {
+        let amounts = [0, 1, -1, 16, -16, 31, 32, 33, 64, -64, 100, -200, 640];
+        match r.below(3) {
+            0 => {
+                a.push(&[r.below(8) as i32, r.below(8) as i32, 2]).op(0x17);
+                a.push(&[*r.pick(&amounts)]).op(0x38); // SHPIX
+            }
+            1 => {
+                a.push(&[r.below(8) as i32]).op(0x10); // SRP0
+                a.push(&[r.below(8) as i32, *r.pick(&amounts)]).op(0x3A + r.below(2) as u8); // MSIRP[a]
+            }
+            _ => {
+                a.push(&[r.below(8) as i32, *r.pick(&amounts) * 5]).op(0x48); // SCFS
+            }
+        }
+    }
+
+    fn fam_arith(a: &mut Asm, r: &mut Rng) {
+        let vals = [0, 1, -1, 2, 3, 31, 32, 33, 63, 64, 65, 100, -100, 127, 128, 640, -640, 1000, 4095, 4096, -4097, 32767, -32768, 20000];
+        a.push(&[r.below(8) as i32]); // the point SCFS will move
+        a.push(&[*r.pick(&vals), *r.pick(&vals)]);
+        let bin = [0x60u8, 0x61, 0x62, 0x63, 0x8B, 0x8C]; // ADD SUB DIV MUL MAX MIN
+        let op = *r.pick(&bin);
+        if op == 0x62 {
+            // never divide by zero (both interpreters raise an error, nothing to compare)
+            a.op(0x20).push(&[0]).op(0x54).op(0x58).op(0x21).push(&[7]).op(0x59); // DUP 0 EQ IF POP 7 EIF
+        }
+        a.op(op);
+        for _ in 0..r.below(3) {
+            let un = [0x64u8, 0x65, 0x66, 0x67, 0x68, 0x69, 0x6A, 0x6B, 0x6C, 0x6D, 0x56, 0x57, 0x5C]; // ABS NEG FLOOR CEILING ROUND* NROUND* ODD EVEN NOT
+            a.op(*r.pick(&un));
+        }
+        // keep the coordinate inside a range where f32 holds it exactly: v -> (v MIN 200000) MAX -200000
+        a.push(&[20000]).op(0x8C).push(&[-20000]).op(0x8B);
+        a.op(0x48); // SCFS
+    }
+
+    fn fam_measure(a: &mut Asm, r: &mut Rng, pts: &[(i16, i16)], ax: usize) {
+        fam_miap(a, r, pts, ax);
+        let (p, q) = (r.below(8) as i32, r.below(8) as i32);
+        if r.chance(1, 2) {
+            a.push(&[q, p]).op(0x46 + r.below(2) as u8).op(0x48); // GC[a] p ; SCFS q
+        } else {
+            a.push(&[q, p, (p + 2) % 8]).op(0x49 + r.below(2) as u8); // MD[a]
+            a.op(0x38); // SHPIX q by the measured distance
+        }
+    }
+
+    fn fam_delta(a: &mut Asm, r: &mut Rng, pts: &[(i16, i16)], ax: usize) {
+        a.push(&[*r.pick(&[9, 6, 16, 25, 40, 60, 100, 170, 250])]).op(0x5E); // SDB
+        a.push(&[*r.pick(&[0, 1, 3, 4, 6])]).op(0x5F); // SDS
+        let n = 2 + r.below(3) as i32;
+        if r.chance(2, 3) {
+            fam_mdrp(a, r); // touch something first (backward compatibility looks at touch flags)
+            for _ in 0..n {
+                a.push(&[r.below(256) as i32, r.below(8) as i32]);
+            }
+            a.push(&[n]).op(*r.pick(&[0x5D, 0x71, 0x72])); // DELTAP1/2/3
+        } else {
+            let p = r.below(8) as usize;
+            let idx = SCRATCH_CVT + 9;
+            a.push(&[idx, coord(pts, p, ax) + *r.pick(&DELTAS)]).op(0x70);
+            for _ in 0..n {
+                a.push(&[r.below(256) as i32, idx]);
+            }
+            a.push(&[n]).op(*r.pick(&[0x73, 0x74, 0x75])); // DELTAC1/2/3
+            a.push(&[p as i32, idx]).op(0x3F);
+        }
+    }
+
+    fn fam_cond(a: &mut Asm, r: &mut Rng, pts: &[(i16, i16)], ax: usize) {
+        match r.below(4) {
+            0 => {
+                a.op(0x4B).push(&[*r.pick(&[9, 12, 20, 33, 50, 80, 128, 150, 200, 260, 300])]); // MPPEM t
+                a.op(*r.pick(&[0x50, 0x51, 0x52, 0x53, 0x54, 0x55]));
+            }
+            1 => {
+                a.op(0x4C).push(&[*r.pick(&[12, 20, 64, 640, 1280, 6400])]).op(0x52); // MPS t GT
+            }
+            2 => {
+                // GETINFO selector; keep one result bit
+                a.push(&[*r.pick(&[1, 2, 4, 8, 32, 64, 128, 256, 512, 1024, 2048, 4096])]).op(0x88);
+                if r.chance(1, 2) {
+                    a.push(&[*r.pick(&[35, 38, 40, 42])]).op(0x53); // version >= n
+                }
+            }
+            _ => {
+                a.push(&[r.below(8) as i32]).op(0x46).push(&[*r.pick(&[0, 64, 300, 1000])]).op(0x52); // GC p > t
+            }
+        }
+        a.op(0x58); // IF
+        fam_miap(a, r, pts, ax);
+        a.op(0x1B); // ELSE
+        fam_shpix(a, r);
+        a.op(0x59); // EIF
+    }
+
+    fn fam_twilight(a: &mut Asm, r: &mut Rng, pts: &[(i16, i16)], ax: usize) {
+        let tw = r.below(8) as i32;
+        let p = r.below(8) as usize;
+        a.push(&[0]).op(0x13); // SZP0 0
+        a.push(&[SCRATCH_CVT + 10, coord(pts, p, ax) + *r.pick(&DELTAS)]).op(0x70);
+        a.push(&[tw, SCRATCH_CVT + 10]).op(0x3E + r.below(2) as u8); // MIAP in the twilight zone
+        match r.below(3) {
+            0 => {
+                let q = r.below(8) as usize;
+                a.push(&[SCRATCH_CVT + 11, coord(pts, q, ax) - coord(pts, p, ax) + *r.pick(&DELTAS)]).op(0x70);
+                a.push(&[q as i32, SCRATCH_CVT + 11]).op(0xE0 + r.below(32) as u8); // MIRP from twilight rp0
+            }
+            1 => {
+                a.push(&[r.below(8) as i32]).op(0xC0 + r.below(32) as u8); // MDRP from twilight rp0
+            }
+            _ => {
+                a.push(&[r.below(8) as i32]).op(0x3C); // ALIGNRP
+            }
+        }
+        a.push(&[1]).op(0x16); // SZPS 1
+    }
+
+    fn fam_call(a: &mut Asm, r: &mut Rng, pts: &[(i16, i16)], ax: usize) {
+        a.push(&[r.below(8) as i32]).op(0x2F); // MDAP[1]
+        match r.below(3) {
+            0 => {
+                a.push(&[r.below(8) as i32, 0]).op(0x2B); // CALL 0: MDRP
+            }
+            1 => {
+                let n = 1 + r.below(4) as i32;
+                for _ in 0..n {
+                    a.push(&[r.below(8) as i32]);
+                }
+                a.push(&[n, 1]).op(0x2A); // LOOPCALL 1: SHPIX 24
+            }
+            _ => {
+                let p = r.below(8) as usize;
+                a.push(&[SCRATCH_CVT + 12, coord(pts, p, ax) + *r.pick(&DELTAS)]).op(0x70);
+                a.push(&[p as i32, SCRATCH_CVT + 12, 2]).op(0x2B); // CALL 2: MIAP[1]
+            }
+        }
+    }
+
+    fn fam_flip(a: &mut Asm, r: &mut Rng) {
+        match r.below(3) {
+            0 => {
+                a.push(&[r.below(8) as i32, r.below(8) as i32, 2]).op(0x17).op(0x80); // FLIPPT
+            }
+            1 => {
+                let lo = r.below(6) as i32;
+                a.push(&[lo, lo + 1 + r.below(2) as i32]).op(0x82); // FLIPRGOFF
+            }
+            _ => {
+                let lo = r.below(6) as i32;
+                a.push(&[lo, lo + 1]).op(0x82).push(&[lo, lo]).op(0x81); // off then one back on
+            }
+        }
+    }
+
+    fn fam_vectors(a: &mut Asm, r: &mut Rng, pts: &[(i16, i16)]) {
+        let (p1, p2) = (r.below(8) as i32, r.below(8) as i32);
+        let p2 = if p1 == p2 { (p2 + 3) % 8 } else { p2 };
+        match r.below(5) {
+            0 => a.push(&[p1, p2]).op(0x06 + r.below(2) as u8).op(0x0E), // SPVTL[a]; SFVTPV
+            1 => a.push(&[p1, p2]).op(0x08 + r.below(2) as u8).op(0x02 + r.below(2) as u8), // SFVTL[a]; SPVTCA
+            2 => a.push(&[p1, p2]).op(0x86 + r.below(2) as u8).op(0x0E), // SDPVTL[a]; SFVTPV
+            3 => a.push(&[*r.pick(&[0x4000, 0x3B21, 0x2D41, 0x376D]), *r.pick(&[0, 0x187E, 0x2D41, 0x2000])]).op(0x0A).op(0x0E),
+            _ => a.op(0x01).op(0x0C).op(0x0B).op(0x0D).op(0x0A), // SVTCA x; GPV; SFVFS; GFV; SPVFS (round trip)
+        };
+        fam_mdrp(a, r);
+        let p = r.below(8) as usize;
+        a.push(&[SCRATCH_CVT + 13, pts[p].0 as i32 + *r.pick(&DELTAS)]).op(0x70);
+        a.push(&[p as i32, SCRATCH_CVT + 13]).op(0x3E + r.below(2) as u8);
+    }
+
+    pub fn glyphs() -> Vec<Glyph> {
+        let mut r = Rng::new(0xC03);
+        let mut out = vec![Glyph { name: ".notdef".into(), pts: vec![], code: vec![], miap_kernel: None }];
+        let base: [(i32, i32); 8] = [(100, 0), (900, 0), (1130, 310), (1100, 1090), (880, 1400), (120, 1400), (-60, 1010), (-30, 290)];
+        for fam in FAMILIES {
+            for v in 0..VARIANTS {
+                let pts: Vec<(i16, i16)> =
+                    base.iter().map(|(x, y)| ((x + r.range(-70, 70) as i32) as i16, (y + r.range(-70, 70) as i32) as i16)).collect();
+                let mut a = Asm::default();
+                let mut kernel = None;
+                if fam == "kmiap" {
+                    // x(point 0) := v; cvt := c; cut-in := k; no rounding; MIAP[1]  =>  x(point 0) = cut-in selection
+                    let pick = |r: &mut Rng| -> i32 {
+                        match r.below(4) {
+                            0 => r.range(-32768, 32767) as i32,
+                            1 => *r.pick(&[0, 1, -1, 64, -64, 32767, -32768, 68, 17]),
+                            _ => r.range(-700, 700) as i32,
+                        }
+                    };
+                    let vv = pick(&mut r);
+                    let c = if r.chance(1, 2) { vv + *r.pick(&DELTAS) } else { pick(&mut r) }.clamp(-32768, 32767);
+                    let k = if r.chance(1, 2) { (c - vv).abs() + r.range(-1, 1) as i32 } else { *r.pick(&[0, 1, 17, 68, 300, -1, -5, 32767]) }
+                        .clamp(-32768, 32767);
+                    a.op(0x01); // SVTCA[x]
+                    a.push(&[0, vv]).op(0x48); // SCFS
+                    a.push(&[SCRATCH_CVT, c]).op(0x44); // WCVTP
+                    a.push(&[k]).op(0x1D); // SCVTCI
+                    a.op(0x7A); // ROFF
+                    a.push(&[0, SCRATCH_CVT]).op(0x3F); // MIAP[1]
+                    kernel = Some((c as i64, vv as i64, k as i64));
+                } else {
+                    let ax = if fam == "vectors" { 1 } else { axis(&mut a, &mut r) };
+                    round_state(&mut a, &mut r);
+                    thresholds(&mut a, &mut r);
+                    let blocks = if fam == "mixed" { 3 } else { 1 };
+                    for _ in 0..blocks {
+                        let f = if fam == "mixed" { *r.pick(&FAMILIES[..14]) } else { fam };
+                        match f {
+                            "miap" => fam_miap(&mut a, &mut r, &pts, ax),
+                            "mdrp" => fam_mdrp(&mut a, &mut r),
+                            "mirp" => fam_mirp(&mut a, &mut r, &pts, ax),
+                            "align" => fam_align(&mut a, &mut r, &pts, ax),
+                            "isect" => fam_isect(&mut a, &mut r),
+                            "shpix" => fam_shpix(&mut a, &mut r),
+                            "arith" => fam_arith(&mut a, &mut r),
+                            "measure" => fam_measure(&mut a, &mut r, &pts, ax),
+                            "delta" => fam_delta(&mut a, &mut r, &pts, ax),
+                            "cond" => fam_cond(&mut a, &mut r, &pts, ax),
+                            "twilight" => fam_twilight(&mut a, &mut r, &pts, ax),
+                            "call" => fam_call(&mut a, &mut r, &pts, ax),
+                            "flip" => fam_flip(&mut a, &mut r),
+                            _ => fam_vectors(&mut a, &mut r, &pts),
+                        }
+                    }
+                    match r.below(4) {
+                        0 => {
+                            a.op(0x30).op(0x31); // IUP[y] IUP[x]
+                        }
+                        1 => {
+                            a.op(0x30);
+                        }
+                        _ => {}
+                    }
+                }
+                out.push(Glyph { name: format!("{fam}{v:02}"), pts, code: a.0, miap_kernel: kernel });
+            }
+        }
+        out
+    }
+
+    fn be16(v: &mut Vec<u8>, x: i32) {
+        v.extend((x as u16).to_be_bytes());
+    }
+
+    /// Replace glyf/loca/maxp/hmtx/cvt/fpgm/prep of a template font (head/hhea patched; cmap, name, post, OS/2 kept).
+    pub fn build_font(template: &[u8], glyphs: &[Glyph]) -> Vec<u8> {
+        let ntab = u16::from_be_bytes([template[4], template[5]]) as usize;
+        let mut tables: std::collections::BTreeMap<[u8; 4], Vec<u8>> = Default::default();
+        for i in 0..ntab {
+            let rec = &template[12 + 16 * i..28 + 16 * i];
+            let tag: [u8; 4] = rec[0..4].try_into().unwrap();
+            let off = u32::from_be_bytes(rec[8..12].try_into().unwrap()) as usize;
+            let len = u32::from_be_bytes(rec[12..16].try_into().unwrap()) as usize;
+            if [b"head", b"hhea", b"cmap", b"name", b"post", b"OS/2"].contains(&&tag) {
+                tables.insert(tag, template[off..off + len].to_vec());
+            }
+        }
+        // glyf + loca (long) + hmtx
+        let (mut glyf, mut loca, mut hmtx) = (vec![], vec![], vec![]);
+        let mut max_ins = 0usize;
+        for g in glyphs {
+            loca.extend((glyf.len() as u32).to_be_bytes());
+            if g.pts.is_empty() {
+                be16(&mut hmtx, 1000);
+                be16(&mut hmtx, 0);
+                continue;
+            }
+            let xs: Vec<i32> = g.pts.iter().map(|p| p.0 as i32).collect();
+            let ys: Vec<i32> = g.pts.iter().map(|p| p.1 as i32).collect();
+            let (xmin, xmax) = (*xs.iter().min().unwrap(), *xs.iter().max().unwrap());
+            let (ymin, ymax) = (*ys.iter().min().unwrap(), *ys.iter().max().unwrap());
+            be16(&mut glyf, 1);
+            for v in [xmin, ymin, xmax, ymax] {
+                be16(&mut glyf, v);
+            }
+            be16(&mut glyf, g.pts.len() as i32 - 1);
+            be16(&mut glyf, g.code.len() as i32);
+            glyf.extend(&g.code);
+            max_ins = max_ins.max(g.code.len());
+            glyf.extend(std::iter::repeat(0x01u8).take(g.pts.len())); // on curve, 16-bit deltas
+            let mut prev = 0;
+            for x in &xs {
+                be16(&mut glyf, x - prev);
+                prev = *x;
+            }
+            prev = 0;
+            for y in &ys {
+                be16(&mut glyf, y - prev);
+                prev = *y;
+            }
+            while glyf.len() % 4 != 0 {
+                glyf.push(0);
+            }
+            be16(&mut hmtx, 1300 + (xmax % 7) * 11);
+            be16(&mut hmtx, xmin); // lsb = xMin: the first phantom point sits at 0
+        }
+        loca.extend((glyf.len() as u32).to_be_bytes());
+        let mut maxp = vec![];
+        maxp.extend(0x00010000u32.to_be_bytes());
+        for v in [glyphs.len() as i32, 8, 1, 0, 0, 2, 16, 16, 8, 0, 256, max_ins.max(64) as i32, 0, 0] {
+            be16(&mut maxp, v);
+        }
+        let cvt_vals: [i32; 40] = [
+            0, 100, 300, 900, 1000, 1100, 1400, 800, 200, 50, -50, 20, 10, 5, 1, 64, 128, 700, 1300, 1234, -300, -800, -1100, 1500, 2, 3, 40, 80,
+            160, 600, 450, 1050, 0, 0, 0, 0, 0, 0, 0, 0,
+        ];
+        let mut cvt = vec![];
+        for v in cvt_vals.iter().chain([0i32; 24].iter()) {
+            be16(&mut cvt, *v);
+        }
+        // fpgm: F0 = MDRP[min,round] ; F1 = SHPIX by 24 ; F2 = MIAP[1]
+        let fpgm: Vec<u8> = vec![0xB0, 0, 0x2C, 0xD4, 0x2D, 0xB0, 1, 0x2C, 0xB0, 24, 0x38, 0x2D, 0xB0, 2, 0x2C, 0x3F, 0x2D];
+        // prep: above 100 ppem tighten the cut-in (what real fonts do); below 7 ppem switch glyph programs off
+        let mut prep = Asm::default();
+        prep.op(0x4B).push(&[100]).op(0x52).op(0x58).push(&[16]).op(0x1D).op(0x59);
+        prep.op(0x4B).push(&[7]).op(0x50).op(0x58).push(&[1, 1]).op(0x8E).op(0x59);
+        let head = tables.get_mut(b"head").unwrap();
+        head[50] = 0;
+        head[51] = 1; // indexToLocFormat = long
+        let hhea = tables.get_mut(b"hhea").unwrap();
+        let n = glyphs.len() as u16;
+        hhea[34..36].copy_from_slice(&n.to_be_bytes());
+        for (tag, data) in [(b"glyf", glyf), (b"loca", loca), (b"hmtx", hmtx), (b"maxp", maxp), (b"cvt ", cvt), (b"fpgm", fpgm), (b"prep", prep.0)] {
+            tables.insert(*tag, data);
+        }
+        let mut out = vec![];
+        out.extend(0x00010000u32.to_be_bytes());
+        be16(&mut out, tables.len() as i32);
+        for _ in 0..3 {
+            be16(&mut out, 0); // searchRange etc.: neither reader uses them
+        }
+        let mut off = 12 + 16 * tables.len();
+        let mut body = vec![];
+        for (tag, data) in &tables {
+            out.extend(tag);
+            out.extend(0u32.to_be_bytes());
+            out.extend((off as u32).to_be_bytes());
+            out.extend((data.len() as u32).to_be_bytes());
+            body.extend(data);
+            let pad = (4 - data.len() % 4) % 4;
+            body.extend(std::iter::repeat(0u8).take(pad));
+            off += data.len() + pad;
+        }
+        out.extend(body);
+        out
+    }
+}
+
+// ------------------------------------------------------------------------------------------
 // (b) the differential grid
 // ------------------------------------------------------------------------------------------
 
@@ -490,7 +1037,12 @@ struct GridOut {
     nontrivial: Vec<u64>,
     evaluations: u64,
     sample: Option<serde_json::Value>,
+    /// (synthetic glyph id, x of point 0 from skrifa, from FreeType) in 26.6 for the kernel-tie glyphs
+    kernel_obs: Vec<(usize, i64, i64)>,
 }
+
+static SYNTH: std::sync::OnceLock<Vec<synth::Glyph>> = std::sync::OnceLock::new();
+const SYNTH_FILE: &str = "c03_synthetic.ttf";
 
 fn path_str(p: &[PathElement]) -> String {
     let mut s = p.iter().map(|e| format!("{e:?}")).collect::<Vec<_>>().join("; ");
@@ -555,7 +1107,11 @@ fn run_grid_task(path: &std::path::Path, ppem: u32, out: &mut GridOut) {
             let mut sk_outline: Vec<PathElement> = vec![];
             for gid in 0..sk.glyph_count() {
                 let g = GlyphId::from(gid);
-                let key = format!("{fname}:{gid}:{ppem}:{mode}");
+                let synth_glyph = if name == SYNTH_FILE { SYNTH.get().and_then(|v| v.get(gid as usize)) } else { None };
+                let key = match synth_glyph {
+                    Some(sg) => format!("{fname}:{}:{ppem}:{mode}", sg.name),
+                    None => format!("{fname}:{gid}:{ppem}:{mode}"),
+                };
                 ft_outline.clear();
                 sk_outline.clear();
                 let ft_adv = ft.outline(g, &mut RegularizingPen::new(&mut ft_outline, is_scaled));
@@ -588,6 +1144,15 @@ fn run_grid_task(path: &std::path::Path, ppem: u32, out: &mut GridOut) {
                         if out.sample.is_none() && ft_outline.len() > 3 && gid > 2 && ppem != 0 && hinting.is_some() {
                             out.sample = Some(json!({"key": key, "advance_ft": ft_adv, "advance_skrifa": sk_adv, "path": path_str(&ft_outline)}));
                         }
+                        if let (Some(sg), "mono", 16) = (synth_glyph, mode, ppem) {
+                            if sg.miap_kernel.is_some() {
+                                let x0 = |p: &[PathElement]| match p.first() {
+                                    Some(PathElement::MoveTo { x, .. }) => (*x as f64 * 64.0).round() as i64,
+                                    _ => i64::MIN,
+                                };
+                                out.kernel_obs.push((gid as usize, x0(&sk_outline), x0(&ft_outline)));
+                            }
+                        }
                         if ft_outline != sk_outline {
                             out.failures.push(json!({"key": key, "what": "outline differs", "freetype": path_str(&ft_outline),
                                                      "skrifa": path_str(&sk_outline)}));
@@ -606,23 +1171,123 @@ fn run_grid_task(path: &std::path::Path, ppem: u32, out: &mut GridOut) {
     }
 }
 
-fn grid(st: &mut Stats, thorough: bool) {
-    let mut ppems: Vec<u32> = vec![0];
-    // the whole grid costs about a second, so the quick tier already runs the dense grid
-    if thorough {
-        ppems.extend(4..=256);
-        ppems.extend([300, 400, 512, 768, 1000, 2000, 4000]);
-    } else {
-        ppems.extend(6..=64);
-        ppems.extend([72, 96, 128, 256, 1000]);
+/// Decode a TrueType instruction stream and collect the constants that are compared with MPPEM (fonts switch
+/// behaviour at such thresholds: `PUSH n; MPPEM; LT/GT/...` or `MPPEM; PUSH n; GTEQ ...`).  Heuristic superset:
+/// every value pushed within the 4 pushes before an MPPEM, or after it and before the next comparison.
+fn scan_mppem_constants(code: &[u8], out: &mut std::collections::BTreeSet<u32>) {
+    let mut recent: Vec<i32> = vec![];
+    let mut after: Option<usize> = None; // instructions seen since the last MPPEM
+    let mut i = 0;
+    while i < code.len() {
+        let op = code[i];
+        i += 1;
+        let (n, wide) = match op {
+            0x40 => {
+                let n = *code.get(i).unwrap_or(&0) as usize;
+                i += 1;
+                (n, false)
+            }
+            0x41 => {
+                let n = *code.get(i).unwrap_or(&0) as usize;
+                i += 1;
+                (n, true)
+            }
+            0xB0..=0xB7 => ((op - 0xB0) as usize + 1, false),
+            0xB8..=0xBF => ((op - 0xB8) as usize + 1, true),
+            _ => (0, false),
+        };
+        for _ in 0..n {
+            let v = if wide {
+                let v = i16::from_be_bytes([*code.get(i).unwrap_or(&0), *code.get(i + 1).unwrap_or(&0)]) as i32;
+                i += 2;
+                v
+            } else {
+                let v = *code.get(i).unwrap_or(&0) as i32;
+                i += 1;
+                v
+            };
+            recent.push(v);
+            if after.is_some() && (2..=4096).contains(&v) {
+                out.insert(v as u32);
+            }
+        }
+        if op == 0x4B {
+            for v in recent.iter().rev().take(4) {
+                if (2..=4096).contains(v) {
+                    out.insert(*v as u32);
+                }
+            }
+            after = Some(0);
+        } else if let Some(k) = after {
+            // a comparison (LT..NEQ) or 8 further instructions end the window
+            after = if (0x50..=0x55).contains(&op) || k >= 8 { None } else { Some(k + 1) };
+        }
     }
-    let files = font_files();
+}
+
+fn mppem_thresholds(path: &std::path::Path) -> Vec<u32> {
+    use skrifa::raw::{tables::glyf::Glyph, types::Tag, FileRef, TableProvider};
+    let mut set = std::collections::BTreeSet::new();
+    let Ok(data) = std::fs::read(path) else { return vec![] };
+    let Ok(file) = FileRef::new(&data) else { return vec![] };
+    for font in file.fonts().flatten() {
+        for tag in [b"fpgm", b"prep"] {
+            if let Some(t) = font.table_data(Tag::new(tag)) {
+                scan_mppem_constants(t.as_bytes(), &mut set);
+            }
+        }
+        if let (Ok(glyf), Ok(loca), Ok(maxp)) = (font.glyf(), font.loca(None), font.maxp()) {
+            for gid in 0..maxp.num_glyphs() {
+                match loca.get_glyf(skrifa::GlyphId::from(gid), &glyf) {
+                    Ok(Some(Glyph::Simple(g))) => scan_mppem_constants(g.instructions(), &mut set),
+                    Ok(Some(Glyph::Composite(g))) => scan_mppem_constants(g.instructions().unwrap_or_default(), &mut set),
+                    _ => {}
+                }
+            }
+        }
+    }
+    let mut v: Vec<u32> = set.iter().flat_map(|c| [c.saturating_sub(1), *c, c + 1]).filter(|c| *c >= 2).collect();
+    v.sort();
+    v.dedup();
+    v.truncate(90);
+    v
+}
+
+fn grid(st: &mut Stats, thorough: bool, synthetic: Option<&std::path::Path>) -> Vec<(usize, i64, i64)> {
+    let mut ppems: Vec<u32> = vec![0];
+    // The whole grid costs a few seconds, so the quick tier already runs a dense grid: every integer size up to
+    // 320 (prep programs switch behaviour at ppem thresholds well above 100), a sparse tail, and per font +-1
+    // around every constant its programs compare with MPPEM.
+    if thorough {
+        ppems.extend(2..=512);
+        ppems.extend([600, 768, 1000, 1500, 2000, 2048, 4000]);
+    } else {
+        ppems.extend(4..=320);
+        ppems.extend([384, 512, 768, 1000, 2048]);
+    }
+    // development aid: C03_PPEMS=a,b,c replaces the size list
+    if let Ok(l) = std::env::var("C03_PPEMS") {
+        ppems = l.split(',').filter_map(|x| x.trim().parse().ok()).collect();
+    }
+    let mut files = font_files();
+    if let Some(p) = synthetic {
+        files.push(p.to_path_buf());
+    }
     let mut tasks: Vec<(std::path::PathBuf, u32)> = vec![];
+    let mut extra_sizes = 0usize;
     for f in &files {
-        for p in &ppems {
+        let mut mine = ppems.clone();
+        for t in mppem_thresholds(f) {
+            if !mine.contains(&t) {
+                mine.push(t);
+                extra_sizes += 1;
+            }
+        }
+        for p in &mine {
             tasks.push((f.clone(), *p));
         }
     }
+    st.v.insert("grid_mppem_threshold_extra_sizes".into(), extra_sizes.into());
     let next = AtomicUsize::new(0);
     let results: Mutex<Vec<(usize, GridOut)>> = Mutex::new(vec![]);
     let nthreads = std::thread::available_parallelism().map(|n| n.get()).unwrap_or(8).min(16);
@@ -642,7 +1307,9 @@ fn grid(st: &mut Stats, thorough: bool) {
     let mut results = results.into_inner().unwrap();
     results.sort_by_key(|r| r.0);
     let mut failures = vec![];
+    let mut kernel_obs = vec![];
     for (_, out) in results {
+        kernel_obs.extend(out.kernel_obs);
         st.evaluations += out.evaluations;
         for (k, v) in out.counters {
             st.add(&k, v);
@@ -666,12 +1333,56 @@ fn grid(st: &mut Stats, thorough: bool) {
     // One oracle failure per (font, glyph, mode): key "<font>:<glyph>:*:<mode>", carrying the list of
     // failing ppem sizes and both paths of the first failing instance.
     let mut groups: BTreeMap<String, (serde_json::Value, Vec<String>)> = BTreeMap::new();
+    // FreeType's CFF engine rejects scales above 2000 ppem (psft.c CF2_MAX_SIZE -> Glyph_Too_Big) and cffgload.c
+    // then reloads the glyph UNHINTED and scales it afterwards; skrifa keeps hinting.  That documented divergence
+    // class gets one key per font, "<font>:cff-above-2000ppem", instead of one per glyph and mode.
+    let is_cff: std::collections::BTreeSet<String> = files
+        .iter()
+        .filter(|f| {
+            std::fs::read(f)
+                .ok()
+                .and_then(|d| skrifa::raw::FontRef::new(&d).ok().map(|font| {
+                    use skrifa::raw::TableProvider;
+                    font.cff().is_ok() || font.cff2().is_ok()
+                }))
+                .unwrap_or(false)
+        })
+        .map(|f| f.file_name().unwrap().to_string_lossy().to_string())
+        .collect();
+    // (font, glyph, mode) groups that already fail at ordinary sizes keep their ordinary key at every size
+    let fails_small: std::collections::BTreeSet<String> = failures
+        .iter()
+        .filter_map(|f| {
+            let key = f["key"].as_str().unwrap_or("");
+            let parts: Vec<&str> = key.rsplitn(4, ':').collect();
+            (parts.len() == 4 && parts[1].parse::<u32>().map(|p| p <= 1000).unwrap_or(false))
+                .then(|| format!("{}:{}:{}", parts[3], parts[2], parts[0]))
+        })
+        .collect();
     for f in failures {
         let key = f["key"].as_str().unwrap_or("").to_string();
         let parts: Vec<&str> = key.rsplitn(4, ':').collect(); // mode, ppem, glyph, font
-        let gkey = format!("{}:{}:*:{}", parts[3], parts[2], parts[0]);
+        let big_cff = is_cff.contains(parts[3])
+            && parts[0] != "unhinted"
+            && parts[1].parse::<u32>().map(|p| p > 2000).unwrap_or(false)
+            && f["what"] == "outline differs";
+        // synthetic font above 1000 ppem: coordinates approach the range where 32-bit intermediates of single
+        // instructions overflow (FreeType computes in 64-bit longs); one key for that class
+        let big_synth = parts[3] == SYNTH_FILE
+            && parts[1].parse::<u32>().map(|p| p > 1000).unwrap_or(false)
+            && !fails_small.contains(&format!("{}:{}:{}", parts[3], parts[2], parts[0]));
+        let gkey = if big_cff {
+            format!("{}:cff-above-2000ppem", parts[3])
+        } else if big_synth {
+            format!("{}:above-1000ppem", parts[3])
+        } else {
+            format!("{}:{}:*:{}", parts[3], parts[2], parts[0])
+        };
         let e = groups.entry(gkey).or_insert_with(|| (f.clone(), vec![]));
-        e.1.push(parts[1].to_string());
+        let inst = if big_cff || big_synth { format!("{}@{}:{}", parts[2], parts[1], parts[0]) } else { parts[1].to_string() };
+        if e.1.len() < 400 {
+            e.1.push(inst);
+        }
     }
     st.v.insert("grid_mismatch_groups".into(), json!(groups.keys().collect::<Vec<_>>()));
     for (gkey, (first, ppems)) in groups {
@@ -681,6 +1392,7 @@ fn grid(st: &mut Stats, thorough: bool) {
         f["failing_ppems"] = json!(ppems);
         st.oracle_failure(f);
     }
+    kernel_obs
 }
 
 /// development aid (`c03 probe <font> <gid> <ppem>`): pedantic-mode outcome of both interpreters
@@ -729,7 +1441,13 @@ fn main() {
     // (b) first (skrifa panics inside the grid are caught; keep the default hook silent)
     silence_panics();
     let t0 = std::time::Instant::now();
-    grid(&mut st, thorough);
+    let glyphs = SYNTH.get_or_init(synth::glyphs);
+    let synth_path = dir.join(SYNTH_FILE);
+    std::fs::create_dir_all(&dir).unwrap();
+    let template = std::fs::read("/repo/font-test-data/test_data/ttf/tinos_subset.ttf").unwrap();
+    std::fs::write(&synth_path, synth::build_font(&template, glyphs)).unwrap();
+    st.v.insert("synthetic_glyphs".into(), glyphs.len().into());
+    let kernel_obs = grid(&mut st, thorough, Some(&synth_path));
     let t_grid = t0.elapsed().as_secs_f64();
     // (a)
     let cw = CaseWriter::new(
@@ -741,6 +1459,11 @@ fn main() {
     );
     let mut k = Kernels { st, cw };
     kernels(&mut k, &mut rng, thorough);
+    // op 30: the MIAP[1] control-value cut-in decision, observed through the synthetic font on BOTH interpreters
+    for (gid, sk_x, ft_x) in &kernel_obs {
+        let (c, v, cut) = glyphs[*gid].miap_kernel.unwrap();
+        k.emit_observed(30, vec![c, v, cut], *sk_x, *ft_x);
+    }
     let Kernels { mut st, cw } = k;
     witnesses(&mut st);
     let shards = cw.finish();
